@@ -109,6 +109,11 @@ Utf8Laws ==
     \* validity is compositional on both sides of an ASCII byte
     /\ Utf8Valid(s) => Utf8Valid(<<65>> \o s \o <<65>>)
     /\ Utf8Valid(s) => Utf8CharCount(s) <= Len(s) /\ 4 * Utf8CharCount(s) >= Len(s)
+    \* the lead-byte table agrees with the decoder on valid strings and is 0 exactly on bytes that start nothing
+    /\ (Utf8Valid(s) /\ Len(s) > 0) => Utf8LeadLen(s[1]) = SeqLenOf(s[1])
+    /\ \A b \in Alphabet : (Utf8LeadLen(b) = 0) = (IsCont(b) \/ b >= 248)
+    /\ Utf8Valid(s) => /\ Len(CharStarts(s)) = Utf8CharCount(s) + 1
+                        /\ CharStarts(s)[Len(CharStarts(s))] = Len(s)
     \* decoding a valid string yields one scalar value per character, and re-encodable UTF-16
     /\ Utf8Valid(s) =>
           LET d == Utf8Decode(s)
@@ -134,6 +139,40 @@ ASSUME Utf8Valid(<<194, 128>>) /\ Utf8Valid(<<224, 160, 128>>)
 ASSUME Utf8CharCount(<<72, 195, 169, 226, 130, 172, 240, 159, 166, 128>>) = 4
 ASSUME Utf8Decode(<<72, 195, 169, 226, 130, 172, 240, 159, 166, 128>>) = <<72, 233, 8364, 129408>>      \* "H\u00e9\u20ac\U0001F980"
 ASSUME Utf16Enc(<<72, 233, 8364, 129408>>) = <<72, 233, 8364, 55358, 56704>>
+
+(* ---------------------------------------------------------------- ASCII text kernels (MC_Kernels_ascii.cfg) *)
+NonWild(b) == b # 42 /\ b # 63
+Lit == SelectSeq(s, NonWild)                      \* the text: s without the wildcard characters
+AsciiLaws ==
+    /\ AsciiLower(AsciiUpper(s)) = AsciiLower(s) /\ AsciiUpper(AsciiLower(s)) = AsciiUpper(s)
+    /\ AsciiLower(AsciiLower(s)) = AsciiLower(s) /\ Len(AsciiUpper(s)) = Len(s)
+    /\ \A i \in 1..Len(s) : (AsciiLower(s)[i] # s[i]) = (s[i] >= 65 /\ s[i] <= 90)
+    \* runs: concatenating the runs gives the text back, neighbours differ
+    /\ LET r == Runs(s)
+           RECURSIVE Flat(_)
+           Flat(k) == IF k > Len(r) THEN <<>> ELSE [j \in 1..r[k][3] |-> r[k][1]] \o Flat(k + 1)
+       IN  /\ Flat(1) = s
+           /\ \A k \in 1..(Len(r) - 1) : r[k][1] # r[k + 1][1] /\ r[k + 1][2] = r[k][2] + r[k][3]
+    \* filters: keep and remove of the same set split the text; alnum = alpha or digit
+    /\ LET S == <<65, 32>>
+       IN  Len(FilterBytes(s, [kind |-> "keep", set |-> S])) + Len(FilterBytes(s, [kind |-> "remove", set |-> S])) = Len(s)
+    /\ \A i \in 1..Len(s) :
+          ClassMatch([kind |-> "alnum"], s[i]) = (ClassMatch([kind |-> "alpha"], s[i]) \/ ClassMatch([kind |-> "digit"], s[i]))
+    /\ StrHashBytes(s, <<0, 0, 0, 0>>) = StrHashBytes(Suf(Len(s) \div 2), StrHashBytes(Pre(Len(s) \div 2), <<0, 0, 0, 0>>))
+WildLaws ==
+    /\ WildMatch(Lit, Lit) /\ WildMatch(Lit, <<42>>) /\ WildMatch(Lit, <<42, 42>>)
+    /\ WildMatch(Lit, [i \in 1..Len(Lit) |-> 63]) /\ ~WildMatch(Lit, [i \in 1..(Len(Lit) + 1) |-> 63])
+    /\ ~WildMatch(Append(Lit, 65), Lit) /\ WildMatch(Append(Lit, 65), Append(Lit, 42))
+    /\ \A k \in 0..Len(Lit) :
+          /\ WildMatch(Lit, SubSeq(Lit, 1, k) \o <<42>> \o SubSeq(Lit, k + 1, Len(Lit)))
+          /\ WildMatch(Lit, SubSeq(Lit, 1, k) \o <<42>>) /\ WildMatch(Lit, <<42>> \o SubSeq(Lit, k + 1, Len(Lit)))
+    \* s as a pattern: a match consumes one byte per non-star character at least
+    /\ WildMatch(Lit, s) => Len(Lit) >= Cardinality({i \in 1..Len(s) : s[i] # 42})
+    /\ (\A i \in 1..Len(s) : s[i] # 42) => (WildMatch(Lit, s) => Len(Lit) = Len(s))
+    \* dictionary scan finds a word exactly where FindSub-style matching says
+    /\ \A k \in 0..Len(s) :
+          LET w == SubSeq(s, k + 1, Len(s))  d == DictMatches(s, <<w>>)
+          IN  Len(w) > 0 => (\E j \in 1..Len(d) : d[j] = <<k, Len(w), 0>>) /\ d[1][1] = FindSub(s, w)
 
 (* ---------------------------------------------------------------- codecs *)
 CodecLaws ==
@@ -184,6 +223,18 @@ BitLaws ==
         /\ (x[1] = 0 /\ x[2] = 0) =>
               /\ PopCount(x, 32) = PopCount(x, 64)
               /\ BitReverse(BitReverse(x, 32), 32) = x
+FieldLaws ==
+    Len(s) = 4 =>
+    LET x == s
+    IN  /\ \A n \in {0, 1, 16, 31, 32, 33, 64} : Field(x, 0, n) = ZeroHighBits(x, 64, n)
+        /\ \A st \in {0, 1, 16, 33, 63} : Field(x, st, 64) = Field(x, st, 64 - st)            \* bits beyond 63 read as zero
+        /\ Field(x, 16, 16) = <<0, 0, 0, x[3]>> /\ Field(x, 48, 32) = <<0, 0, 0, x[1]>>
+        /\ LeadingZeros(x, 64) = TrailingZeros(BitReverse(x, 64), 64)
+        /\ (x[1] = 0 /\ x[2] = 0) =>
+              LET lo == <<0, 0, 0, x[4]>>  hi == <<0, 0, 0, x[3]>>  il == Interleave(lo, hi)
+                  pl == Pdep(lo, <<21845, 21845, 21845, 21845>>, 64)  ph == Pdep(hi, <<43690, 43690, 43690, 43690>>, 64)
+              IN  /\ il = [i \in 1..4 |-> pl[i] | ph[i]]
+                  /\ Pext(il, <<21845, 21845, 21845, 21845>>, 64) = lo /\ Pext(il, <<43690, 43690, 43690, 43690>>, 64) = hi
 HashLaws ==
     \* the little-endian prefix is the first word the hash absorbs
     Len(s) >= 8 => StrHash(SubSeq(s, 1, 8), <<0, 0, 0, 0>>) = Prefix8(s)
